@@ -1731,6 +1731,40 @@ HEADER = """(* GENERATED by translators/py2coq.py from the Python source of CMin
      x in y / x not in y        py_in_str (substring) / py_in_list ; negb
      Union[E, str] (E an Enum)  the sum type E + str ; == E.MEMBER is py_union_is
      textwrap.dedent(CONSTANT)  the constant computed by the translator with Python's own textwrap
+     -c, a - b, and what is     an int that may be negative is an integer Z (py_zint_add, py_zint_sub, py_zint_lt ..);
+     computed from them         a natural number meeting it is injected with py_zint_of_int.  Indices, slice and
+                                range bounds must be natural numbers.  (process_add_test: name_index = -1)
+     x[a:-1]                    py_slice_drop_last (py_slice_from x a)
+     x in (a, b) / not in       (x == a || x == b) / negb
+     [E for v in XS if C]       py_listcomp_if (fun v => C) (fun v => E) XS ; for i, v in enumerate(XS): py_enumerate XS
+     for .. : .. return ..      match py_for_ret XS (fun st v => BODY) st with inr r => r | inl st => ... end
+                                BODY yields inr <result> at a return statement and inl st at its end
+     return (no value), or      the result of a method: the tuple of the fields self.f it assigns anywhere (in order of
+     the end of a method        first assignment in the source); a field not assigned on the path taken has its incoming
+                                value, and then is also an argument of the translated function
+     try: x = xs[e]; y = z ..   if e < len(xs) then (x = xs[e]; y = z ..) else HANDLER      only this shape: e a natural
+     except IndexError: HANDLER number, the other statements of the try body plain copies, HANDLER ending in return
+     self.logger.error(..) etc. no effect (the arguments are not evaluated)
+   Parser contexts (aggregator.py).  A parameter annotated CMakeParser.Command_invocationContext is a
+   Model.Parser.cmd; a Single_/Compound_argumentContext, or a parameter annotated ParserRuleContext, is a
+   Model.Parser.arg.  Understood on them, and nothing else:
+     ctx.single_argument()      py_single_arguments ctx  (list of arg)      a.getText() / ctx.getText()   py_get_text / py_cmd_text
+     isinstance(a, CMakeParser.Compound_argumentContext)                    py_is_compound a
+     [E for v in X.getChildren() if isinstance(v, (CMakeParser.Single_argumentContext,
+                                                   CMakeParser.Compound_argumentContext))]
+                                py_listcomp (fun v => E) (py_argument_children X)     (py_cmd_argument_children for a cmd)
+     Class.f(v) inside f        recursion: only for a function of one argument context, only on such a child v;
+                                Definition f a := py_arg_rec <default> (fun f a => BODY) a     (unrolled depth + 1 times)
+   Documentation objects (aggregator.py).  self.documented is a list of Model.DocTypes.entry, and
+     GenericCommandDocumentation(n, d, ps)       DocTypes.EGeneric n d ps       CTestDocumentation(n, d, ps)   DocTypes.ECTest n d ps
+     VariableDocumentation(n, d, VarType.X, v)   DocTypes.EVariable n d VX v   (v: a str is Some v, None is None)
+     OptionDocumentation(n, d, 'bool', v, h)     DocTypes.EOption n d v h      (the third argument must be that constant)
+     TestDocumentation(n, d, xf) / SectionDocumentation(n, d, xf)              DocTypes.ETest false/true n d xf [] false
+   The ONE aliasing rule: a field annotated Union[DocumentationType, None] (documented_awaiting_function_def)
+   may only be assigned a local object that was just appended to self.documented, and then holds the POSITION
+   of that object:  let x_index := py_len self_documented in let self_documented := py_append .. in
+   let self_f := Aggregator.AwTop x_index in ...   A list stored in a documentation object must not be mutated
+   in place anywhere in the function.
    Arguments of a translated function: (the RST document `world`, when the function has an
    RSTWriter parameter;) the explicit Python parameters in order; then, for a method, the fields
    self.f that the method reads before assigning them, in the order in which the class declares
